@@ -475,7 +475,9 @@ def _gen_files(doc: Any, package: str = "sk_twin", as_yaml: bool = False, **cf: 
             dp = root / "doc.yaml"
             # block-style YAML with the mapping order of the document preserved (the safe dumper would sort keys)
             y = YAML()
-            y.default_flow_style = False
+            y.default_flow_style = as_yaml == "flow"  # "flow": the whole document as one {…} flow mapping (valid YAML, not JSON: plain scalars)
+            if as_yaml == "flow":
+                y.width = 100000
             with dp.open("w") as f:
                 y.dump(doc, f)
             cfg = gen.make_config(dp, root / package, package_name_override=package, **cf)
@@ -631,7 +633,7 @@ def equivalent_documents(tier: str = "quick", known: list | None = None, **_: An
 
     wit, n = [], 0
 
-    def compare(label: str, a: dict, b: dict, yaml_b: bool = False) -> None:
+    def compare(label: str, a: dict, b: dict, yaml_b: Any = False) -> None:
         nonlocal n
         n += 1
         fa, ea = _gen_files(a)
@@ -645,6 +647,8 @@ def equivalent_documents(tier: str = "quick", known: list | None = None, **_: An
         if tier == "quick" and name.split(":")[1] not in ("nested", "unions", "params", "enums"):
             continue
         compare(f"json-vs-yaml:{name}", d, d, yaml_b=True)
+        if name.split(":")[1] in ("nested", "params"):
+            compare(f"json-vs-flow-yaml:{name}", d, d, yaml_b="flow")
     # 3.0 nullable vs 3.1 type list
     base30 = doc({"M": obj({"a-s": {"type": "string", "nullable": True}, "b-i": {"type": "integer", "nullable": True}, "c-l": {"type": "array", "items": STR, "nullable": True}, "d-m": {"nullable": True, "allOf": [ref("Leaf")]}}, ["a-s"]), "Leaf": obj({"x": INT})}, version="3.0.3")
 
